@@ -189,6 +189,14 @@ def zx_gi(obj, idx):
         if ex.feasible(z3.Or(adj < 0, adj >= n)):
             if ex.decide(z3.Or(adj < 0, adj >= n)):
                 raise IndexError('%s index out of range' % to.__name__)
+        if to in (list, tuple, bytes, bytearray) and 8 < n <= 4096 and all(type(x) is int for x in obj):
+            # constant integer table: lookup as an if-then-else chain over the index (no fork)
+            from .core import mkint
+            W = ex.W
+            e = z3.BitVecVal(obj[0], W)
+            for j in range(1, n):
+                e = z3.If(adj == j, z3.BitVecVal(obj[j], W), e)
+            return mkint(e, min(obj), max(obj))
         return obj[ex.concretize(adj, cap=n + 1)]
     return obj[idx]
 
